@@ -60,11 +60,13 @@ func rootCause(cls, stmt string) string {
 		}
 		return false
 	}
-	patternAsValue := regexp.MustCompile(`(^|[^A-Za-z0-9_$"])A($|[^A-Za-z0-9_"])|/x/`).MatchString(stmt)
+	// a pattern is in value position unless it is the right operand of =~ / !~ or an operand of && / ||
+	rest := regexp.MustCompile(`(=~|!~) (A\b|/x/)`).ReplaceAllString(stmt, "")
+	patternAsValue := regexp.MustCompile(`(^|[^A-Za-z0-9_$"])A($|[^A-Za-z0-9_"])|/x/`).MatchString(rest)
 	switch {
 	case strings.Contains(cls, "Failed to pop a timestamp") && hasAny("settime("):
 		return "settime() accepted with a non-integer argument"
-	case patternAsValue && (cls == "panic" || strings.Contains(cls, "unexpected")):
+	case patternAsValue && !hasAny(" && ", " || ") && (cls == "panic" || strings.Contains(cls, "unexpected")):
 		return "a pattern (constant or literal) accepted as an operand or argument in value position"
 	case (strings.Contains(cls, "type bool") || strings.Contains(cls, "for string bool")) && hasAny(" < ", " > ", " <= ", " >= ", " == ", " != ", " && ", " || ", " =~ ", " !~ "):
 		return "the boolean result of a comparison accepted as a value (assigned, added, or used as an index)"
